@@ -665,6 +665,50 @@ theorem C05_attr_groups_tagged (gtype : String) (body : List (String × Obj)) (h
     rw [← h5]
     simpa using this.1
 
+theorem customAttrGroup_ok (i : NodeInfo) (h : DT.contains i.gtype = true) : attrGroupOK (customAttrGroup i) = true := by
+  have hd : DT = EmdGen.dataGroupTypes := rfl
+  simp only [customAttrGroup, nodeGroup, nodeAttrs, retagCustom, alookup, if_true, areplace, attrGroupOK, Obj.gtype, Obj.pyClass,
+    Obj.attrs, Bool.and_eq_true]
+  refine ⟨?_, by simp [alookup]⟩
+  simp only [alookup, if_true, EmdGen.customGroupTypes, List.contains_eq_mem, List.mem_map, decide_eq_true_eq]
+  exact ⟨i.gtype, by simpa [hd] using h, rfl⟩
+
+/-- C05, a Custom node: the body `Custom.to_h5` writes — what `Node.to_h5` wrote (a valid body without attribute groups of
+    its own) followed by one re-tagged group per node-valued attribute — is a valid body, whatever the classes of the
+    attribute nodes are (built-in, subclasses, Custom again): the tag is derived from the attribute's GROUP TYPE, which is in
+    the vocabulary, never from its class name -/
+theorem C05_custom_body_ok (own : List (String × Obj)) (attrs : List NodeInfo)
+    (hown : bodyOK "custom" own = true)
+    (hat : ∀ i ∈ attrs, DT.contains i.gtype = true ∧ i.name ≠ "metadatabundle") :
+    bodyOK "custom" (customBody own attrs) = true := by
+  have hc : ("custom" == "array") = false := by decide
+  simp only [bodyOK, hc, Bool.false_eq_true, if_false, Bool.and_true, Bool.and_eq_true] at hown ⊢
+  have hlook : alookup "metadatabundle" (customBody own attrs) = alookup "metadatabundle" own := by
+    simp only [customBody, alookup_append]
+    cases alookup "metadatabundle" own with
+    | some b => rfl
+    | none =>
+      simp only [Option.none_or]
+      apply alookup_none_of_not_mem
+      simp only [akeys, List.map_map, List.mem_map, Function.comp, not_exists, not_and]
+      intro i hi e
+      exact (hat i hi).2 e
+  refine ⟨by rw [hlook]; exact hown.1, ?_⟩
+  simp only [bodyGroupsOK, customBody, List.all_append, Bool.and_eq_true, List.all_map] at hown ⊢
+  refine ⟨hown.2, ?_⟩
+  rw [List.all_eq_true]
+  intro i hi
+  simp only [Function.comp, Bool.or_eq_true]
+  right
+  exact customAttrGroup_ok i (hat i hi).1
+
+-- non-vacuity of `C05_custom_body_ok`: a Custom node with a bundle and two attributes, one an Array (class `Image`, a subclass)
+example : bodyOK "custom" (customBody [("metadatabundle", .group bundleAttrs [])]
+    [⟨"first", "Image", "array", [("data", .dataset [("units", .str "")] (.tok "t"))]⟩, ⟨"second", "Node", "node", []⟩]) = true := by decide
+example : (customBody [] [⟨"first", "Image", "array", []⟩]) =
+    [("first", .group [("emd_group_type", .str "custom_array"), ("python_class", .str "Image")] [])] := by
+  simp [customBody, customAttrGroup, nodeGroup, nodeAttrs, retagCustom, alookup, areplace]
+
 -- a group tagged with a class name instead of a group type (`custom_image`) makes the body invalid; retagged properly it is valid
 example : bodyOK "custom" [("first", .group [("emd_group_type", .str "custom_image"), ("python_class", .str "Image")] [])] = false := by decide
 example : bodyOK "custom" [("first", .group [("emd_group_type", .str "custom_array"), ("python_class", .str "Image")] [])] = true := by decide
